@@ -39,7 +39,8 @@ static TAB_FD: AtomicI32 = AtomicI32::new(-1);
 static OUT_FD: AtomicI32 = AtomicI32::new(-1);
 static CALLS: AtomicU64 = AtomicU64::new(0);
 static FAULT_AT: AtomicI64 = AtomicI64::new(-1);
-static FAULT_ERRNO: AtomicI32 = AtomicI32::new(0);
+static FAULT_ERRNO: [AtomicI32; 4] = [AtomicI32::new(0), AtomicI32::new(0), AtomicI32::new(0), AtomicI32::new(0)];   // by kind of the call that is hit
+static FAULT_ERRNO_USED: AtomicI32 = AtomicI32::new(0);
 static FAULT_KIND: AtomicI32 = AtomicI32::new(-1);          // kind of the call the fault hit
 static FAULTED: AtomicBool = AtomicBool::new(false);
 static CALLS_AFTER_FAULT: AtomicU64 = AtomicU64::new(0);
@@ -86,7 +87,9 @@ fn numbered(kind: i32) -> Option<i32> {
   if idx == FAULT_AT.load(SeqCst) && !FAULTED.load(SeqCst) {
     FAULTED.store(true, SeqCst);
     FAULT_KIND.store(kind, SeqCst);
-    return Some(FAULT_ERRNO.load(SeqCst));
+    let e = FAULT_ERRNO[kind as usize].load(SeqCst);
+    FAULT_ERRNO_USED.store(e, SeqCst);
+    return Some(e);
   }
   None
 }
@@ -149,11 +152,11 @@ pub unsafe extern "C" fn epoll_wait(epfd: libc::c_int, events: *mut libc::epoll_
   libc::syscall(libc::SYS_epoll_wait, epfd as libc::c_long, events, maxevents as libc::c_long, timeout as libc::c_long) as libc::c_int
 }
 
-fn reset_monitor(kbd: i32, tab: i32, out: i32, fault: Option<(u64, i32)>) {
+fn reset_monitor(kbd: i32, tab: i32, out: i32, fault: Option<(u64, [i32; 4])>) {
   ACTIVE.store(false, SeqCst);
   KBD_FD.store(kbd, SeqCst); TAB_FD.store(tab, SeqCst); OUT_FD.store(out, SeqCst);
   CALLS.store(0, SeqCst);
-  match fault { Some((k, e)) => { FAULT_AT.store(k as i64, SeqCst); FAULT_ERRNO.store(e, SeqCst); }, None => { FAULT_AT.store(-1, SeqCst); } }
+  match fault { Some((k, e)) => { FAULT_AT.store(k as i64, SeqCst); for i in 0..4 { FAULT_ERRNO[i].store(e[i], SeqCst); } }, None => { FAULT_AT.store(-1, SeqCst); } }
   FAULT_KIND.store(-1, SeqCst);
   FAULTED.store(false, SeqCst); CALLS_AFTER_FAULT.store(0, SeqCst); WRITES_AFTER_FAULT.store(0, SeqCst);
   END[0].store(false, SeqCst); END[1].store(false, SeqCst); END_DELIVERED.store(false, SeqCst);
@@ -292,6 +295,7 @@ pub struct Outcome {
   pub calls: u64,
   pub kinds: Vec<u8>,
   pub fault_kind: i32,
+  pub fault_errno: i32,
   pub calls_after_fault: u64,
   pub writes_after_fault: u64,
   pub end_delivered: bool,
@@ -392,9 +396,9 @@ pub fn strip_special(l: &Layout) -> Layout {
   l
 }
 
-pub fn run_script(layout: &Layout, script: &Script, fault: Option<(u64, i32)>) -> Outcome {
+pub fn run_script(layout: &Layout, script: &Script, fault: Option<(u64, [i32; 4])>) -> Outcome {
   let mut oc = Outcome { result: None, panicked: None, sends: vec![], garbled: None, mismatch: None, stuck: None, inconclusive: None, calls: 0, kinds: vec![],
-    fault_kind: -1, calls_after_fault: 0, writes_after_fault: 0, end_delivered: false, writes_after_end: 0, calls_after_end: 0,
+    fault_kind: -1, fault_errno: 0, calls_after_fault: 0, writes_after_fault: 0, end_delivered: false, writes_after_end: 0, calls_after_end: 0,
     wakes: 0, wakes_2plus: 0, eintr: 0, spurious: 0, syncs: 0, tablet_on: 0, sends_checked: 0, records_fed: 0, foreign_fed: 0, feeder_writes: 0 };
   let (kb, tab, outp) = match (mkpipe(true, false, true), mkpipe(true, false, false), mkpipe(true, true, true)) {
     (Some(a), Some(b), Some(c)) => (a, b, c),
@@ -432,8 +436,9 @@ pub fn run_script(layout: &Layout, script: &Script, fault: Option<(u64, i32)>) -
   for (idx, item) in script.items.iter().enumerate() {
     if over { break; }
     match item {
-      Item::Eintr => { EINTR_NEXT.store(true, SeqCst); },
-      Item::Spurious => { SPURIOUS_NEXT.store(true, SeqCst); },
+      // (armed once the loop sleeps in epoll_wait, so that it always hits the wait after the next arrival)
+      Item::Eintr => { let _ = wait_until(|| IN_EPOLL.load(SeqCst), &th, limit); EINTR_NEXT.store(true, SeqCst); },
+      Item::Spurious => { let _ = wait_until(|| IN_EPOLL.load(SeqCst), &th, limit); SPURIOUS_NEXT.store(true, SeqCst); },
       Item::Kb(recs, sync) => {
         let mut bytes: Vec<u8> = Vec::with_capacity(recs.len() * 24);
         for r in recs {
@@ -562,6 +567,7 @@ pub fn run_script(layout: &Layout, script: &Script, fault: Option<(u64, i32)>) -
   }
   oc.calls = CALLS.load(SeqCst);
   oc.fault_kind = FAULT_KIND.load(SeqCst);
+  oc.fault_errno = FAULT_ERRNO_USED.load(SeqCst);
   oc.calls_after_fault = CALLS_AFTER_FAULT.load(SeqCst);
   oc.writes_after_fault = WRITES_AFTER_FAULT.load(SeqCst);
   oc.end_delivered = END_DELIVERED.load(SeqCst);
@@ -602,7 +608,7 @@ fn errno_texts(e: i32) -> Vec<String> {
   vec![format!("{:?}", en), en.desc().to_string(), format!("os error {}", e)]
 }
 
-pub fn judge(script: &Script, fault: Option<(u64, i32)>, oc: &Outcome) -> Vec<RV> {
+pub fn judge(script: &Script, fault: Option<(u64, [i32; 4])>, oc: &Outcome) -> Vec<RV> {
   let mut v = vec![];
   if oc.inconclusive.is_some() { return v; }
   if let Some(p) = &oc.panicked {
@@ -629,8 +635,9 @@ pub fn judge(script: &Script, fault: Option<(u64, i32)>, oc: &Outcome) -> Vec<RV
         }
       }
     },
-    Some((k, e)) => {
+    Some((k, _)) => {
       if oc.fault_kind < 0 { return v; }      // the call to fail was never reached
+      let e = oc.fault_errno;
       let kind = KIND_NAMES[oc.fault_kind as usize];
       let gone = e == libc::ENODEV && (oc.fault_kind == K_READ_KBD || oc.fault_kind == K_READ_TAB);
       if oc.writes_after_fault > 0 {
@@ -689,13 +696,13 @@ pub fn script_parse(v: &Value) -> Option<Script> {
   Some(Script { items })
 }
 
-fn replay_obj(prop: &str, source: &str, layout: &Layout, script: &Script, fault: Option<(u64, i32)>) -> Value {
+fn replay_obj(prop: &str, source: &str, layout: &Layout, script: &Script, fault: Option<(u64, [i32; 4])>) -> Value {
   json!({ "engine": "realdrv", "property": prop, "source": source, "layout": serde_json::to_value(layout).unwrap(), "layout_text": layout_str(layout),
-    "script": script_json(script), "fault": fault.map(|f| json!([f.0, f.1])) })
+    "script": script_json(script), "fault": fault.map(|f| json!([f.0, f.1[0], f.1[1], f.1[2], f.1[3]])) })
 }
 
 // A sleeping loop with unread input is only reported when the same case shows it three times in a row.
-fn run_confirmed(layout: &Layout, script: &Script, fault: Option<(u64, i32)>) -> Outcome {
+fn run_confirmed(layout: &Layout, script: &Script, fault: Option<(u64, [i32; 4])>) -> Outcome {
   let oc = run_script(layout, script, fault);
   if oc.stuck.is_none() { return oc; }
   for _ in 0..2 {
@@ -705,7 +712,7 @@ fn run_confirmed(layout: &Layout, script: &Script, fault: Option<(u64, i32)>) ->
   oc
 }
 
-fn record(out: &mut ShardOut, prop: &str, rvs: &[RV], source: &str, layout: &Layout, script: &Script, fault: Option<(u64, i32)>) -> bool {
+fn record(out: &mut ShardOut, prop: &str, rvs: &[RV], source: &str, layout: &Layout, script: &Script, fault: Option<(u64, [i32; 4])>) -> bool {
   let mut any = false;
   for rv in rvs {
     if rv.property != prop && !(rv.clause == "panic") { out.count(&format!("realdrv_observations_for_{}", rv.property)); continue; }
@@ -751,17 +758,20 @@ pub fn phase(out: &mut ShardOut, opts: &Opts, rng: &mut Rng, cases: &[LayoutCase
       let stride = if n <= 80 || thorough && n <= 300 { 1 } else { 1 + n / (if thorough { 300 } else { 80 }) };
       let mut k = rng.below(stride as usize) as u64;
       while k < n {
-        let kind = base.kinds[k as usize] as i32;
-        let e = match kind { K_READ_KBD | K_READ_TAB => *rng.pick(&READ_ERRNOS), K_WRITE => *rng.pick(&WRITE_ERRNOS), _ => *rng.pick(&EPOLL_ERRNOS) };
-        let oc = run_script(&layout, &script, Some((k, e)));
+        // the errno is chosen per kind of call, and the monitor applies the one that fits the call it actually hits
+        // (the numbering of calls can differ by one or two between two runs of the same script)
+        let er = *rng.pick(&READ_ERRNOS);
+        let es = [er, er, *rng.pick(&WRITE_ERRNOS), *rng.pick(&EPOLL_ERRNOS)];
+        let oc = run_script(&layout, &script, Some((k, es)));
+        let e = oc.fault_errno;
         out.count("realdrv_fault_runs");
         if oc.inconclusive.is_some() { out.count("realdrv_inconclusive_runs"); k += stride; continue; }
         if oc.fault_kind < 0 { out.count("realdrv_fault_point_not_reached"); k += stride; continue; }
         out.count(&format!("realdrv_faults_at_{}", KIND_NAMES[oc.fault_kind as usize]));
         if e == libc::ENODEV && oc.fault_kind <= K_READ_TAB { out.count("realdrv_enodev_reads"); }
         out.nontrivial(hash64(&(case.id, hash_str(&script_json(&script).to_string()), k, e, 0x7ea1u32)));
-        let rvs = judge(&script, Some((k, e)), &oc);
-        if record(out, &prop, &rvs, &case.source, &layout, &script, Some((k, e))) { bad += 1; break; }
+        let rvs = judge(&script, Some((k, es)), &oc);
+        if record(out, &prop, &rvs, &case.source, &layout, &script, Some((k, es))) { bad += 1; break; }
         if out.get("realdrv_samples") < 2 && oc.fault_kind == K_WRITE && k > 8 {
           out.count("realdrv_samples");
           out.sample(json!({ "real_driver": true, "layout": layout_str(&layout), "script": script_json(&script), "failed_call": k, "kind": KIND_NAMES[oc.fault_kind as usize], "errno": e,
@@ -798,7 +808,7 @@ pub fn replay(rep: &Value, out: &mut ShardOut) -> bool {
   let layout: Layout = match rep.get("layout").and_then(|l| serde_json::from_value(l.clone()).ok()) { Some(l) => l, None => return false };
   let script = match rep.get("script").and_then(script_parse) { Some(s) => s, None => return false };
   let prop = rep.get("property").and_then(|p| p.as_str()).unwrap_or("C10").to_string();
-  let fault = rep.get("fault").and_then(|f| f.as_array()).and_then(|a| Some((a.get(0)?.as_u64()?, a.get(1)?.as_i64()? as i32)));
+  let fault = rep.get("fault").and_then(|f| f.as_array()).and_then(|a| { let g = |i: usize| a.get(i).and_then(|x| x.as_i64()).map(|x| x as i32); let e0 = g(1)?; Some((a.get(0)?.as_u64()?, [e0, g(2).unwrap_or(e0), g(3).unwrap_or(e0), g(4).unwrap_or(e0)])) });
   std::panic::set_hook(Box::new(|_| {}));
   let oc = run_confirmed(&layout, &script, fault);
   let rvs = judge(&script, fault, &oc);
